@@ -110,6 +110,7 @@ func configs(tier string) []config {
 			cs = append(cs, config{encdrv.K1, codec, bs, d})
 		}
 		cs = append(cs, config{encdrv.K0, codec, 0, d + 1})
+		cs = append(cs, config{encdrv.KW, codec, 0, d - 1})
 	}
 	return cs
 }
@@ -135,6 +136,7 @@ func runHistory(c *fw.Ctx, cf config, h []int) {
 	// fault-free run: learn the number of writes and the clean output
 	clean := &faultyWriter{failAt: -1}
 	var writeOfCall []int // number of writes issued before call i (call -1 = constructor)
+	hdrWrites := 1
 	ok := true
 	c.Guard(locus, desc, desc, func() {
 		e, err := encdrv.New(cf.k, clean, cf.codec, cf.bs)
@@ -142,6 +144,7 @@ func runHistory(c *fw.Ctx, cf config, h []int) {
 			ok = false
 			return
 		}
+		hdrWrites = clean.writes // however many writes the constructor's header takes on this tree
 		for _, op := range h {
 			writeOfCall = append(writeOfCall, clean.writes)
 			if cf.k.IsFlush(op) {
@@ -171,26 +174,29 @@ func runHistory(c *fw.Ctx, cf config, h []int) {
 		for mode := 0; mode < numModes; mode++ {
 			c.Eval(1)
 			c.Nontrivial(fmt.Sprintf("%s/%s/%d/%v/%d/%d", cf.k.Name, cf.codec, cf.bs, h, k, mode))
-			oneFault(c, cf, h, k, mode, cleanOut, hdrLen, writeOfCall, desc, locus)
+			oneFault(c, cf, h, k, mode, cleanOut, hdrLen, hdrWrites, writeOfCall, desc, locus)
 		}
 	}
 }
 
-func writeRole(k int) string {
-	if k == 0 {
+func writeRole(k int) string { return writeRoleH(k, 1) }
+
+// writeRoleH names write k when the header takes hw writes (labels only: blocks are assumed to take four).
+func writeRoleH(k, hw int) string {
+	if k < hw {
 		return "header"
 	}
-	return [...]string{"count", "size", "payload", "sync"}[(k-1)%4]
+	return [...]string{"count", "size", "payload", "sync"}[(k-hw)%4]
 }
 
-func oneFault(c *fw.Ctx, cf config, h []int, k, mode int, cleanOut []byte, hdrLen int, writeOfCall []int, desc, locus string) {
+func oneFault(c *fw.Ctx, cf config, h []int, k, mode int, cleanOut []byte, hdrLen int, hdrWrites int, writeOfCall []int, desc, locus string) {
 	fw_, sink := newFaulty(k, mode)
 	detail := map[string]interface{}{"type": cf.k.Name, "codec": cf.codec, "blocksize": cf.bs, "history": encdrv.HistString(cf.k, h), "fail_write": k, "mode": mode}
-	d2 := fmt.Sprintf("%s failing write #%d (%s) mode %d", desc, k, writeRole(k), mode)
-	role := writeRole(k)
+	d2 := fmt.Sprintf("%s failing write #%d (%s) mode %d", desc, k, writeRoleH(k, hdrWrites), mode)
+	role := writeRoleH(k, hdrWrites)
 	c.Guard(locus+"|"+role, d2, detail, func() {
 		e, err := encdrv.New(cf.k, sink, cf.codec, cf.bs)
-		if k == 0 {
+		if k < hdrWrites {
 			if err == nil {
 				c.Violation("missing-error|"+locus+"|header", "NewEncoderFor returned nil although the header write failed — "+d2, detail)
 			} else if !errors.Is(err, errInjected) {
@@ -381,7 +387,7 @@ func init() {
 			if tier == "thorough" {
 				d = 6
 			}
-			return fmt.Sprintf("every call history of the real Encoder[T] up to length %d over {encode(1B), encode(10B), encode(41B), flush} (struct{S string}; block sizes 0, 10, 2^20) and {encode(0B), flush} (struct{}), × {null,deflate,snappy} × every write index k of the fault-free run × failure mode {accept 0, 1, len-1, len bytes} + error × {every later write fails too, only this write fails (transient)}, and accept-0 × {persistent, transient} through a writer type that additionally has never-failing Flush/Sync/Close/WriteString methods; plus FileWriter.WriteHeader/WriteBlock driven directly over every sequence of <=3 (4 thorough) blocks from a 3-payload alphabet; a case is one (history, k, mode) triple; non-trivial = the failing write was reached and the accepted bytes compared with the fault-free run re-keyed to the same sync marker", d)
+			return fmt.Sprintf("every call history of the real Encoder[T] up to length %d over {encode(1B), encode(10B), encode(41B), flush} (struct{S string}; block sizes 0, 10, 2^20) and {encode(0B), flush} (struct{}), and (one step shorter) over a 24-field type whose schema exceeds 1 KiB, × {null,deflate,snappy} × every write index k of the fault-free run × failure mode {accept 0, 1, len-1, len bytes} + error × {every later write fails too, only this write fails (transient)}, and accept-0 × {persistent, transient} through a writer type that additionally has never-failing Flush/Sync/Close/WriteString methods; plus FileWriter.WriteHeader/WriteBlock driven directly over every sequence of <=3 (4 thorough) blocks from a 3-payload alphabet; a case is one (history, k, mode) triple; non-trivial = the failing write was reached and the accepted bytes compared with the fault-free run re-keyed to the same sync marker", d)
 		},
 		Assumptions: []string{
 			"the writer obeys io.Writer: a short write comes with a non-nil error; after the first failure the history stops (behaviour after an error is not specified by the property)",
